@@ -105,9 +105,11 @@ func Cookies(cookies []*http.Cookie) event.Option {
 func (s *httpService) Handle(ctx context.Context, conn net.Conn) error {
 	id := xid.New()
 
-	for {
-		br := bufio.NewReader(conn)
+	// one reader for the connection: what it has buffered beyond a request
+	// belongs to the next one
+	br := bufio.NewReader(conn)
 
+	for {
 		req, err := http.ReadRequest(br)
 		if err == io.EOF {
 			return nil
